@@ -191,7 +191,8 @@ def equiv_batches(cat, chk):
         plan = [(s, d) for s in ("lt", "vf") for d in (9990, 9999, 10000, 10001, 10002, 10010, 19999, 20000, 20001, 49999, 50001, 99999, 100000, 100001, 150000)]
         plan += [("car", d) for d in (9999, 10001, 20001, 100001)]
     else:
-        plan = [("lt", 9999), ("lt", 10002), ("lt", 20000), ("vf", 10002), ("vf", 20000), ("car", 10002)]
+        plan = [("lt", 9999), ("lt", 10002), ("lt", 20000), ("vf", 10002), ("vf", 20000), ("car", 10002),
+                ("lt", 20004), ("vf", 25000), ("lt", 31000)]      # beyond two and three times the recursion limit (the deferred comparisons are themselves deferred)
     for s, d in plan:
         A, B_, C = cat.deep(s, d, la), cat.deep(s, d, lb), cat.deep(s, d + 1, la)
         mem = [(A, 0), (A, 1 + (d % 2)), (B_, 0), (C, 1)]
@@ -740,7 +741,7 @@ def map_phase(chk, build, sc, cat, good):
     chk.cov["map_histories_from_tlc_simulation"] = nscript_h
     # deeply nested keys around the internal limits of the two equal? implementations
     allcfg = (("69", "equal-default"), ("69", "equal-r7"), ("125", "equal-cmp"), ("125", "equal-prim"))
-    dplan = [("lt", 10002, allcfg)]
+    dplan = [("lt", 10002, allcfg), ("lt", 25000, allcfg[:2])]
     if chk.thorough:     # a comparison costs time proportional to the depth: the deepest keys on two SRFI 69 tables only
         dplan += [("vf", 20000, allcfg), ("lt", 49999, allcfg), ("vf", 100001, allcfg[:2])]
     ndeep = 0
